@@ -13,12 +13,14 @@ by C02's iterated-fetch contract (taken as a HYPOTHESIS: it is the definition of
 (`last_offset_counterexample` shows why), contiguous stored offsets.
 -/
 import KafkaVerif.Lemmas.CommitSync
+import KafkaVerif.Lemmas.CommitTwo
 import KafkaVerif.Model.GroupStart
 import KafkaVerif.Gen.GroupFacts
 import KafkaVerif.Lemmas.Group
 import KafkaVerif.Lemmas.GroupFront
 import KafkaVerif.Lemmas.ReaderRun
 import KafkaVerif.Lemmas.GroupLog
+import KafkaVerif.Lemmas.GroupResp
 
 namespace KV.Commit.C03
 open KV.Commit
@@ -80,6 +82,31 @@ example : (crun {} sample).map (fun s => (s.sent.length, s.replied.map (fun r =>
 
 /-- a request beyond what was handed is not a behaviour of the model -/
 example : crun {} [.call 0 [(("t", 0), 4)], .begin true, .deq [⟨("t", 0), 5⟩] false, .attempt [(("t", 0), 6)] true] = none := by
+  decide
+
+/-! ### two commit loops at once (a late-started loop of the previous generation, D8 shape) -/
+
+/-- `commit_le_handed` when a late-started commit loop of an ended generation runs concurrently with the current
+generation's loop (both drain the same channel, each with its own stash): every offset either of them sends is covered -/
+theorem commit_le_handed_two_loops (s : CState) (h : CReachable2 s) :
+    ∀ x ∈ s.sent, ∀ e ∈ x.1, ∃ m, (e.1, m) ∈ s.passed ∧ e.2 ≤ m + 1 :=
+  (inv2_reachable s h).cov.sent
+
+/-- … and whichever loop answers a synchronous CommitMessages with nil, the request is recorded by an acknowledged
+OffsetCommit issued after the call began -/
+theorem sync_commit_recorded_two_loops (s : CState) (h : CReachable2 s) (id : Nat) (hr : (id, true) ∈ s.rets) :
+    ∃ r : Req, r.id = id ∧ ∀ c ∈ r.commits, ∃ i offs, s.sent[i]? = some (offs, true) ∧ r.sentAtCall ≤ i ∧
+      ∃ o, (c.tp, o) ∈ offs ∧ c.offset ≤ o := by
+  obtain ⟨r, h1, h2⟩ := (inv2_reachable s h).ret (id, true) hr
+  exact ⟨r, h1, (inv2_reachable s h).sinv.recr (r, true) h2 rfl⟩
+
+/-- non-vacuity: the late loop drains request 0 and its first attempt is refused (stale generation) while the current
+loop takes request 1 and gets it acknowledged; then the late loop's retry is acknowledged too -/
+example : (crun2 {} [.main (.call 0 [(("t", 0), 4)]), .late (.begin true), .late .genEnd, .late (.deq [⟨("t", 0), 5⟩] true),
+    .main (.begin true), .main (.call 1 [(("t", 0), 6)]), .late (.attempt [(("t", 0), 5)] false),
+    .main (.deq [⟨("t", 0), 7⟩] false), .main (.attempt [(("t", 0), 7)] true), .main .replied, .main (.ret 1 true),
+    .late (.attempt [(("t", 0), 5)] true), .late (.reply true), .late .endLoop, .main (.ret 0 true)]).map
+    (fun s => (s.sent.map (·.2), s.rets, s.lpc, s.pc)) = some ([false, true, true], [(1, true), (0, true)], .none, .idle) := by
   decide
 
 /-! ### merge -/
@@ -318,6 +345,50 @@ example : (frun false {} [.call, .subscribe 5, .enqueue 1, .recv]).map (fun s =>
   decide
 
 end Front
+
+/-! ## acked ON THE WIRE: what `Conn` concludes from the coordinator's response bytes
+
+The reference encoders (`Spec/GroupWire.lean`, compared byte for byte with what the harness peer writes) composed with
+the conn builder's regenerated model of the `Conn` operations (`Model/ConnOps.opRead` over the parser programs
+re-extracted from offsetcommit.go / offsetfetch.go / heartbeat.go: `Gen/ConnLegacy.lean`).  Ranges: topic names
+< 32 KiB, counts < 2³¹, fields within their widths. -/
+section Wire
+open KV.GroupResp KV.ConnOps
+
+/-- `Conn.offsetCommit` returns nil iff every per-partition code of the OffsetCommit v2 response is 0, and otherwise the
+FIRST non-zero code; the whole frame is consumed.  So a nil result of a synchronous CommitMessages (which is a nil
+result of this call, `sync_commit_recorded`) means the coordinator's response acknowledged every partition. -/
+theorem offsetCommit_acked_on_the_wire (ts : List (String × List (Int × Int))) (hn : ts.length < 2147483648)
+    (h : ∀ t ∈ ts, t.1.toUTF8.toList.length < 32768 ∧ t.2.length < 2147483648 ∧ ∀ pc ∈ t.2, PartOK pc) (topic : Bytes) :
+    opRead (simpleOp "offsetCommit" KV.Gen.ConnLegacy.offsetCommitResponseV2) 2 topic
+        ⟨KV.Spec.GroupWire.offsetCommitResp ts, (KV.Spec.GroupWire.offsetCommitResp ts).length⟩ =
+      ((match (ts.flatMap (fun t => t.2.map (·.2))).find? (fun k => k != 0) with
+        | some k => Outcome.kafka k | none => Outcome.ok), ⟨[], 0⟩) := by
+  rw [spec_offsetCommitResp]
+  have := offsetCommit_conclusion (ts.map fun t => (t.1.toUTF8.toList, t.2)) (by simpa using hn)
+    (by intro t ht; simp only [List.mem_map] at ht; obtain ⟨t', ht', rfl⟩ := ht; exact h t' ht') topic
+  have hcodes : codesOf (ts.map fun t => (t.1.toUTF8.toList, t.2)) = ts.flatMap (fun t => t.2.map (·.2)) := by
+    simp [codesOf, List.flatMap_map]
+  rw [hcodes] at this
+  exact this
+
+/-- `Conn.offsetFetch`: any non-zero per-partition code of the OffsetFetch v1 response makes the call fail with the first
+such code (so `fetchOffsets` fails and no generation is created: `failed_fetch_never_yields_generation`) -/
+theorem offsetFetch_failure_on_the_wire (ts : List (Bytes × List FPart)) (hn : ts.length < 2147483648)
+    (h : ∀ t ∈ ts, FTopicOK t) (topic : Bytes) :
+    opRead (simpleOp "offsetFetch" KV.Gen.ConnLegacy.offsetFetchResponseV1) 1 topic ⟨encFResp ts, (encFResp ts).length⟩ =
+      ((match (fcodesOf ts).find? (fun k => k != 0) with | some k => Outcome.kafka k | none => Outcome.ok), ⟨[], 0⟩) :=
+  offsetFetch_conclusion ts hn h topic
+
+/-- `Conn.heartbeat` / `Conn.leaveGroup`: the response's error code is the call's result -/
+theorem heartbeat_error_on_the_wire (code : Int) (hc : KV.GroupWire.Fits 2 code) (topic : Bytes) :
+    opRead (simpleOp "heartbeat" KV.Gen.ConnLegacy.heartbeatResponseV0) 0 topic ⟨KV.Spec.GroupWire.errOnly code, 2⟩ =
+      ((if code = 0 then Outcome.ok else Outcome.kafka code), ⟨[], 0⟩) ∧
+    opRead (simpleOp "leaveGroup" KV.Gen.ConnLegacy.leaveGroupResponseV0) 0 topic ⟨KV.Spec.GroupWire.errOnly code, 2⟩ =
+      ((if code = 0 then Outcome.ok else Outcome.kafka code), ⟨[], 0⟩) :=
+  ⟨errOnly_conclusion "heartbeat" _ rfl code hc topic, errOnly_conclusion "leaveGroup" _ rfl code hc topic⟩
+
+end Wire
 
 /-! ## the per-generation unsubscribe function of Reader.run (D8b) -/
 section ReaderRunSection
